@@ -892,3 +892,31 @@ Proof.
   - eexists. split; [vm_compute; reflexivity | discriminate].
   - split; [vm_compute; discriminate|]. split; [vm_compute; discriminate|]. vm_compute. reflexivity.
 Qed.
+
+(* ================================================================== 14. norm_path only strips trailing slashes *)
+Lemma rstrip_slash_rev_spec : forall r, exists k, r = repeat SLASH k ++ rstrip_slash_rev r.
+Proof.
+  induction r as [|c r [k IH]]; [exists 0%nat; reflexivity|]. cbn [rstrip_slash_rev].
+  destruct (N.eqb_spec c SLASH) as [->|_]; [|exists 0%nat; reflexivity].
+  exists (S k). cbn [repeat app]. rewrite <- IH. reflexivity.
+Qed.
+
+Lemma rstrip_slash_spec : forall l, exists k, l = rstrip_slash l ++ repeat SLASH k.
+Proof.
+  intro l. destruct (rstrip_slash_rev_spec (rev l)) as [k E]. exists k. unfold rstrip_slash.
+  rewrite <- (rev_involutive l) at 1. rewrite E at 1. rewrite rev_app_distr, rev_repeat'. reflexivity.
+Qed.
+
+(* the path given to scandir is the given path minus some trailing '/' (never everything: "/" stays "/"): no
+   component is removed, reordered or collapsed - which directory the path designates is left to the OS *)
+Theorem norm_path_only_strips_slashes : forall p,
+  (exists k, p = norm_path p ++ repeat SLASH k) /\ (p <> [] -> norm_path p <> []).
+Proof.
+  intro p. destruct p as [|c [|d r]].
+  - split; [exists 0%nat; reflexivity | congruence].
+  - split; [exists 0%nat; reflexivity | discriminate].
+  - unfold norm_path. destruct (N.eqb (last (c :: d :: r) 0) SLASH).
+    + destruct (rstrip_slash_spec (d :: r)) as [k E]. split; [|discriminate].
+      exists k. cbn [app]. rewrite <- E. reflexivity.
+    + split; [exists 0%nat; rewrite app_nil_r; reflexivity | discriminate].
+Qed.
